@@ -31,6 +31,7 @@ struct Outc {
     sent: usize,
     handled: usize,
     streamed: usize,
+    collisions: usize,
 }
 
 async fn scenario(role: Role, rng: &mut Rng, ch: &mut dyn Choose, long_completed: bool) -> Outc {
@@ -52,9 +53,14 @@ async fn scenario(role: Role, rng: &mut Rng, ch: &mut dyn Choose, long_completed
     }
     cfg.min_chunk_size = *rng.pick(&[0u32, 4]);
     cfg.max_payload_buffer = *rng.pick(&[16usize, 32 * 1024]);
+    // clients: publishes reach the application either through the protocol service or through a
+    // routed resource handler (another way of starting the client, with its own limit plumbing)
+    if !role.is_server() && rng.chance(1, 2) {
+        cfg.client_resources = vec!["l/t".into()];
+    }
     let v5 = role.is_v5();
     let mut c = conn::start(&cfg, app.clone()).await;
-    let mut o = Outc { violations: vec![], log: vec![], sig: 0, max_running: 0, max_bytes: 0, limit, size_limit, paused_reads_seen: false, exceeded_rm: false, peer_exceeded: false, sent: 0, handled: 0, streamed: 0 };
+    let mut o = Outc { violations: vec![], log: vec![], sig: 0, max_running: 0, max_bytes: 0, limit, size_limit, paused_reads_seen: false, exceeded_rm: false, peer_exceeded: false, sent: 0, handled: 0, streamed: 0, collisions: 0 };
     let code = if v5 { Some(0) } else { None };
     let mut pid: u16 = 100;
     let mut unacked: Vec<u16> = Vec::new(); // QoS>0 publishes whose final ack was not seen yet
@@ -63,6 +69,7 @@ async fn scenario(role: Role, rng: &mut Rng, ch: &mut dyn Choose, long_completed
     let mut payload_lens: Vec<usize> = Vec::new();
     let mut ctl_id: u16 = 30_000;
     let mut ctl_sent = 0usize;
+    let mut collisions = 0usize;
 
     // v5 receive maximum semantics: at most `limit` unacknowledged QoS 1/2 publishes (0 = no limit)
     let enforce_rm = v5 && limit > 0;
@@ -134,7 +141,10 @@ async fn scenario(role: Role, rng: &mut Rng, ch: &mut dyn Choose, long_completed
         };
         let gated = !long_completed && ch.chance(3, 4);
         let read = if rng.chance(1, 4) { ReadMode::Chunks } else { ReadMode::Eager };
-        app.pub_plans.borrow_mut().push_back(PubPlan { read, gated, outcome: Outcome::Ok });
+        // MQTT 5: now and then the application refuses a message (negative PUBACK / PUBREC, which
+        // ends the exchange just as well)
+        let outcome = if v5 && !gated && qos > 0 && rng.chance(1, 4) { Outcome::Nack(0x87) } else { Outcome::Ok };
+        app.pub_plans.borrow_mut().push_back(PubPlan { read, gated, outcome });
         let pkt = R::Publish { dup: false, qos, retain: false, topic: "l/t".into(), pid: id, props: vec![], payload: vec![i as u8; plen] };
         let bytes = refcodec::encode(c.peer.ver, &pkt).unwrap();
         largest_pkt = largest_pkt.max(bytes.len() as u64);
@@ -236,6 +246,43 @@ async fn scenario(role: Role, rng: &mut Rng, ch: &mut dyn Choose, long_completed
     if c.peer.unread_by_endpoint() > 0 {
         o.paused_reads_seen = true;
     }
+    // ---- MQTT 5 server: a PUBLISH that takes the identifier of a SUBSCRIBE still being handled is
+    // refused (0x91); it is a QoS 1 PUBLISH of the peer like any other (only sent within Receive
+    // Maximum) but must not end up counted against Receive Maximum once it has been refused
+    if role == Role::V5Server && app.stops().is_empty() && c.peer.unread_by_endpoint() == 0 && (!enforce_rm || unacked.len() + 1 < limit as usize) {
+        absorb!();
+        let busy: Option<u16> = app.pending_gates().into_iter().filter(|g| g.0 == GateKind::Proto).find_map(|g| {
+            app.events().iter().find_map(|(_, e)| if let Ev::ProtoEnter { call, kind: "subscribe", pid: Some(p) } = e { (*call == g.1).then_some(*p) } else { None })
+        });
+        if let (Some(cid), true) = (busy, enforce_rm && unacked.len() + 1 < limit as usize) {
+            c.peer.send(&R::Publish { dup: false, qos: 1, retain: false, topic: "l/dup".into(), pid: Some(cid), props: vec![], payload: vec![0xDD] });
+            c.settle().await;
+            // refused only if it was read while the SUBSCRIBE was still being handled (reading may
+            // be paused by the byte limit); otherwise it is one more ordinary publish
+            // (the refusal itself is an ordered response and may still wait behind earlier handlers)
+            let refused = c.peer.unread_by_endpoint() == 0 && app.count(|e| matches!(e, Ev::PubEnter { topic, .. } if topic == "l/dup")) == 0;
+            if refused {
+                collisions += 1;
+            } else {
+                // not read yet (reading is paused) or accepted: it occupies a place in the peer's
+                // window; whether it counts as "sent to a handler" is settled at the end
+                unacked.push(cid);
+            }
+            // afterwards the peer fills its window up to the advertised limit: all of it is accepted
+            absorb!();
+            while refused && unacked.len() < limit as usize {
+                pid += 1;
+                app.pub_plans.borrow_mut().push_back(PubPlan { read: ReadMode::Eager, gated: true, outcome: Outcome::Ok });
+                let pkt = R::Publish { dup: false, qos: 1, retain: false, topic: "l/t".into(), pid: Some(pid), props: vec![], payload: vec![1, 2] };
+                largest_pkt = largest_pkt.max(refcodec::encode(c.peer.ver, &pkt).unwrap().len() as u64);
+                c.peer.send(&pkt);
+                unacked.push(pid);
+                payload_lens.push(2);
+                o.sent += 1;
+            }
+            c.settle().await;
+        }
+    }
     // ---- release everything in random order; every packet must be handled
     for _ in 0..200 {
         let gates: Vec<(GateKind, u32)> = app.pending_gates().into_iter().filter(|g| matches!(g.0, GateKind::Pub | GateKind::Proto)).collect();
@@ -271,7 +318,8 @@ async fn scenario(role: Role, rng: &mut Rng, ch: &mut dyn Choose, long_completed
     // (b) v5 receive maximum
     if enforce_rm {
         if o.exceeded_rm {
-            if !(disc_93 && stops.iter().any(|s| s.1 == StopClass::Protocol)) {
+            let routed_client = !role.is_server() && !cfg.client_resources.is_empty();
+            if !(disc_93 && (routed_client || stops.iter().any(|s| s.1 == StopClass::Protocol))) {
                 o.violations.push((
                     "peer exceeded the advertised Receive Maximum but was not disconnected with 0x93".into(),
                     format!("Receive Maximum {limit}; stops {stops:?}; DISCONNECT 0x93 on wire: {disc_93}"),
@@ -282,6 +330,30 @@ async fn scenario(role: Role, rng: &mut Rng, ch: &mut dyn Choose, long_completed
                 "peer stayed within the advertised Receive Maximum but was refused with 0x93".into(),
                 format!("Receive Maximum {limit}; {} publishes sent; stops {stops:?}", o.sent),
             ));
+        }
+    }
+    o.collisions = collisions;
+    // collision publishes that were accepted after all (the SUBSCRIBE had finished when they were read)
+    let dup_handled = app.count(|e| matches!(e, Ev::PubEnter { topic, .. } if topic == "l/dup"));
+    o.sent += dup_handled;
+    for _ in 0..dup_handled {
+        payload_lens.push(1);
+    }
+    {
+        // judged from the log: the publish handler ran for the colliding identifier before the
+        // SUBSCRIBE handler holding it had finished
+        let log = app.snapshot();
+        for (s_enter, e) in &log {
+            if let Ev::PubEnter { topic, pid: Some(p), .. } = e {
+                if topic != "l/dup" {
+                    continue;
+                }
+                let sub_call = log.iter().find_map(|(_, e2)| if let Ev::ProtoEnter { call, kind: "subscribe", pid: Some(q) } = e2 { (q == p).then_some(*call) } else { None });
+                let sub_exit = sub_call.and_then(|c2| log.iter().find_map(|(s2, e2)| matches!(e2, Ev::ProtoExit { call, .. } if *call == c2).then_some(*s2)));
+                if sub_exit.is_none_or(|x| *s_enter < x) {
+                    o.violations.push(("PUBLISH with the identifier of a SUBSCRIBE that is still being handled reached the publish handler".into(), format!("id {p}")));
+                }
+            }
         }
     }
     // (c) nothing is left unhandled
@@ -345,6 +417,7 @@ pub fn run(opts: &Opts) -> i32 {
                 rep.count("publishes_sent", o.sent as u64);
                 rep.count("publishes_handled", o.handled as u64);
                 rep.count("publishes_trickled", o.streamed as u64);
+                rep.count("publishes_refused_for_the_id_of_a_subscribe_in_progress", o.collisions as u64);
                 rep.count("busy_wait_quiescences(info)", st.spins);
                 if o.paused_reads_seen {
                     rep.count("scenarios_where_reading_paused", 1);
